@@ -17,7 +17,7 @@ ID = "C06"
 LEVEL = "fault_enumeration"
 MIN_OUTCOMES = 3
 MANIFEST = {
-    'text': 'Single-fault enumeration over the rewrite phase: for every project shape (1..3 / 1..5 files, four pattern sets per file incl. partial patterns that do not change with the bump, v2 and legacy, TOML and INI), every order of the configured files (config entry explicit at every position or implicit), a file reached through a glob AND an explicit entry, and every fault position (pattern without match, missing file, undecodable file, rejected version) the real `update`, `update --dry` and `update` with commit/tag/push (fake git) are executed; with a fault they must exit non-zero, leave every byte unchanged and issue no add/commit/tag/push and no hook; fault-free controls must succeed. Project files differ in line-ending style (CRLF, LF, CR, with and without final newline) and carry non-ASCII text, so a restore that re-encodes them shows.',
+    'text': 'Single-fault enumeration over the rewrite phase: for every project shape (1..3 / 1..5 files, four pattern sets per file incl. partial patterns that do not change with the bump, v2 and legacy, TOML and INI), every order of the configured files (config entry explicit at every position or implicit), a file reached through a glob AND an explicit entry, and every fault position (pattern without match, missing file, configured path that is a directory, undecodable file, rejected version: lower, equal or malformed --set-version, bump without change) the real `update`, `update --dry` and `update` with commit/tag/push (fake git) are executed; with a fault they must exit non-zero, leave every byte unchanged and issue no add/commit/tag/push and no hook; fault-free controls must succeed. Project files differ in line-ending style (CRLF, LF, CR, with and without final newline) and carry non-ASCII text, so a restore that re-encodes them shows.',
     'note': 'double faults and I/O errors of the write itself (disk full, permissions) are outside the bound',
     'technique': 'exhaustive single-fault enumeration (deviation bound 1) over file orders on the real CLI with a fake VCS seam',
 }
@@ -42,8 +42,8 @@ FILE_STYLE = [("\r\n", True), ("\n", True), ("\r", True), ("\r\n", False), ("\n"
 
 def bounds(tier, seed):
     return {"max_files": 3 if tier == "quick" else 5, "pattern_sets_per_file": {str(k): list(v) for k, v in PATSETS.items()}, "engines": sorted(ENGINES),
-            "config_formats": ["bumpver.toml", "setup.cfg"], "faults": ["none", "nomatch(file,pattern)", "missing(file)", "undecodable(file)",
-            "lower-set-version", "no-change-bump"], "modes": ["update --dry", "update", "update + commit (fake git)"],
+            "config_formats": ["bumpver.toml", "setup.cfg"], "faults": ["none", "nomatch(file,pattern)", "missing(file)", "undecodable(file)", "directory(file)",
+            "lower-set-version", "no-change-bump", "malformed-set-version", "equal-set-version"], "modes": ["update --dry", "update", "update + commit (fake git)"],
             "file_styles": "per file: CRLF / LF / CR / CRLF without final newline / LF without final newline, non-ASCII header",
             "orders": "all permutations of the file entries, config entry explicit at every position or implicit"}
 
@@ -91,6 +91,9 @@ def make_project(engine, fmt, names, npat, order, explicit, fault):
     files["bystander.txt"] = b"ver=1.2.3;\r\n"
     if fault and fault[0] == "missing":
         del files[fault[1]]
+    if fault and fault[0] == "directory":
+        del files[fault[1]]
+        files[fault[1] + "/inner.txt"] = b"ver=1.2.3;\n"  # the configured path exists but is a directory
     if fault and fault[0] == "undecodable":
         files[fault[1]] = b"header\nver=1.2.3;\npep=1.2.3;\nsem=1.2.3;\napi=1.2;\n\xff\xfe\xfa broken utf-8\n"
     return files
@@ -181,7 +184,8 @@ def run_chunk(chunk):
             faults.append(("nomatch", name, j))
         faults.append(("missing", name))
         faults.append(("undecodable", name))
-    faults += [("lower-set-version",), ("no-change-bump",)]
+        faults.append(("directory", name))
+    faults += [("lower-set-version",), ("no-change-bump",), ("malformed-set-version",), ("equal-set-version",)]
     for order in itertools.permutations(keys):
         for fault in faults:
             for mode in ("dry", "real", "commit"):
@@ -198,6 +202,10 @@ def run_one(st, engine, fmt, names, npat, order, explicit, fault, mode):
     args = ["update", "--no-fetch"]
     if fault == ("lower-set-version",):
         args += ["--set-version", E["lower"]]
+    elif fault == ("malformed-set-version",):
+        args += ["--set-version", "1.2.x"]
+    elif fault == ("equal-set-version",):
+        args += ["--set-version", E["old"]]
     elif fault == ("no-change-bump",):
         pass  # SemVer without --major/--minor/--patch: nothing changes
     else:
@@ -229,7 +237,7 @@ def run_one(st, engine, fmt, names, npat, order, explicit, fault, mode):
     st.validated += 1
     st.nontriv(case)
     pos = ""
-    if fault[0] in ("nomatch", "missing", "undecodable"):
+    if fault[0] in ("nomatch", "missing", "undecodable", "directory"):
         pos = ":first-file" if order.index(fault[1]) == 0 else ":later-file"
     sig_tail = f"{fname}{pos}:{mode}"
     if o.exit == 0 and fname == "undecodable":
